@@ -344,6 +344,83 @@ class FreshStorage:
         return None
 
 
+class FreshSameStorage:
+    """fresh children on every access; ONE object serves as both children of a pair (x . x)"""
+    __slots__ = ("t",)
+
+    def __init__(self, t):
+        self.t = t
+
+    @property
+    def atom(self):
+        return None if isinstance(self.t, tuple) else self.t
+
+    @property
+    def pair(self):
+        if isinstance(self.t, tuple):
+            left = FreshSameStorage(self.t[0])
+            right = left if self.t[1] == self.t[0] else FreshSameStorage(self.t[1])
+            return (left, right)
+        return None
+
+
+class LruStorage:
+    """children are views taken from a small bounded LRU cache shared by the whole tree: a view lives as long as
+    it stays in the cache (a second, short-lived reference) and is rebuilt after eviction"""
+    __slots__ = ("t", "path", "cache")
+
+    def __init__(self, t, path, cache):
+        self.t = t
+        self.path = path
+        self.cache = cache          # (dict path -> view, list of paths in LRU order, capacity)
+
+    @property
+    def atom(self):
+        return None if isinstance(self.t, tuple) else self.t
+
+    def _child(self, t, path):
+        d, order, cap = self.cache
+        v = d.get(path)
+        if v is None:
+            v = LruStorage(t, path, self.cache)
+            d[path] = v
+            order.append(path)
+            while len(order) > cap:
+                d.pop(order.pop(0), None)
+        else:
+            order.remove(path)
+            order.append(path)
+        return v
+
+    @property
+    def pair(self):
+        if isinstance(self.t, tuple):
+            return (self._child(self.t[0], self.path + "f"), self._child(self.t[1], self.path + "r"))
+        return None
+
+
+class LastHeldStorage:
+    """fresh children; the most recently built pair of children is also held in one shared slot until the next
+    `.pair` access anywhere in the tree overwrites it"""
+    __slots__ = ("t", "slot")
+
+    def __init__(self, t, slot):
+        self.t = t
+        self.slot = slot
+
+    @property
+    def atom(self):
+        return None if isinstance(self.t, tuple) else self.t
+
+    @property
+    def pair(self):
+        if isinstance(self.t, tuple):
+            p = (LastHeldStorage(self.t[0], self.slot), LastHeldStorage(self.t[1], self.slot))
+            self.slot[0] = p
+            return p
+        return None
+
+
 class StableStorage:
     """a CLVMStorage that creates its children once and keeps them"""
     __slots__ = ("t", "_p")
@@ -421,8 +498,8 @@ def program_of(Program, t):
 
 
 WRAPPERS = ["program", "program_to", "program_parse", "program_from_bytes", "clvmtree", "stable", "shared",
-            "lazynode", "lazynode_backrefs", "fresh", "to_bytes_2026"]
-FRESH_WRAPPERS = {"lazynode", "lazynode_backrefs", "fresh"}
+            "lazynode", "lazynode_backrefs", "fresh", "to_bytes_2026", "fresh_same", "fresh_lru2", "fresh_lru5", "fresh_held"]
+FRESH_WRAPPERS = {"lazynode", "lazynode_backrefs", "fresh", "fresh_same", "fresh_lru2", "fresh_lru5", "fresh_held"}
 # one Python tree whose leaves are LazyNode handles of SEVERAL allocators (separate deser_* calls); these kinds
 # derive their own source tree from the generated one (the `src` of the event is the tree the object denotes)
 MIXED_WRAPPERS = ["mixed_d1", "mixed_d2", "mixed_d3", "mixed_fresh_d2", "mixed_program_d2", "mixed_similar",
@@ -567,6 +644,12 @@ def wrap(mods, kind, t, classic):
         return m.deser_backrefs(bytes(m.ser_backrefs(m.deser_legacy(classic))))
     if kind == "fresh":
         return FreshStorage(t)
+    if kind == "fresh_same":
+        return FreshSameStorage(t)
+    if kind in ("fresh_lru2", "fresh_lru5"):
+        return LruStorage(t, "", ({}, [], int(kind[-1])))
+    if kind == "fresh_held":
+        return LastHeldStorage(t, [None])
     raise ValueError(kind)
 
 
@@ -620,7 +703,7 @@ def cmd_convcases(mods, inp, out):
     for key, tj in trees.items():
         t = tree_from_json(tj)
         classic = bytes(program_of(mods[1], t))
-        for kind in only[key] or ["lazynode", "fresh", "program", "clvmtree", "stable", "mixed_d1", "mixed_similar"]:
+        for kind in only[key] or ["lazynode", "fresh", "fresh_same", "fresh_lru2", "fresh_held", "program", "clvmtree", "stable", "mixed_d1", "mixed_similar"]:
             n += 1
             r = conv_one(mods, kind, t, classic)
             want = tree_from_json(r["src"]) if "src" in r else t
